@@ -176,8 +176,10 @@ class MatEval:
                     env[norm(tt)] = ("lazy", vv)
                 continue
             if isinstance(st, ast.Assign) and isinstance(st.targets[0], ast.Tuple):
-                # unpacking of a cached tuple etc.: outside the algebra
-                raise AnalysisError(f"{f.qualname}: tuple unpacking outside the matrix grammar")
+                # unpacking of a cached tuple (LU factors etc.): opaque components
+                for tt in st.targets[0].elts:
+                    env[norm(tt)] = Val("other", norm(tt))
+                continue
             if isinstance(st, ast.If):
                 arms = self._arms(st.test)
                 done_all = True
@@ -244,6 +246,8 @@ class MatEval:
                     return Val("mat", -v.v, diagvec=v.diagvec)
             if isinstance(e.op, ast.Not):
                 v = self.ev(f, e.operand, env)
+                if v.kind == "bool" and isinstance(v.v, bool):
+                    return Val("bool", not v.v)
                 return Val("bool", ("not", v.v))
         if isinstance(e, ast.Attribute):
             return self._attr(f, e, env)
@@ -307,8 +311,9 @@ class MatEval:
                     return self.ev(g, rets[0].value, {})
                 # lazy slot accessor: `if self._x is None: ...; return self._x` -> the slot's value
                 last = g.body_without_docstring()[-1]
-                if isinstance(last, ast.Return) and is_self_attr(last.value) and norm(last.value) in self.attrs and self.attrs[norm(last.value)].kind not in ("none", "other"):
-                    return self.attrs[norm(last.value)]
+                if isinstance(last, ast.Return) and is_self_attr(last.value) and norm(last.value) in self.attrs:
+                    v = self.attrs[norm(last.value)]
+                    return v if v.kind not in ("none",) else Val("other", norm(last.value))
             raise AnalysisError(f"{f.qualname}: attribute {txt} has no value in the matrix table")
         base = self.ev(f, base_e, env)
         if e.attr in ("T", "transpose"):
@@ -338,6 +343,8 @@ class MatEval:
         A = self.alg
         a, b = self.ev(f, e.left, env), self.ev(f, e.right, env)
         op = e.op
+        if a.kind == "other" or b.kind == "other":
+            return Val("other", norm(e)[:30])
         if a.kind == "scalar" and b.kind == "scalar":
             x, y = a.v, b.v
             if isinstance(op, ast.Add):
@@ -416,6 +423,16 @@ class MatEval:
             tr = trans is not None and not (isinstance(trans, ast.Constant) and trans.value in (0, "N"))
             ia = A.inv(a)
             return Val("mat", A.mul(A.T(ia) if tr else ia, b))
+        if cn == "sla.lu_solve":
+            # contract: the factors belong to Lm with  <array> = Lm  (flag False)  or  Lm^T  (flag True)
+            lm = self.attrs.get("<lu_matrix>")
+            if lm is None:
+                raise AnalysisError(f"{f.qualname}: lu_solve without an LU contract")
+            b = self._mat(f, self.ev(f, e.args[1], env))
+            t = e.args[2] if len(e.args) > 2 else next((k.value for k in e.keywords if k.arg == "trans"), None)
+            tv = self._truth(f, t, env) if t is not None else False
+            il = A.inv(lm)
+            return Val("mat", A.mul(A.T(il) if tv else il, b))
         if cn == "super()._scalar_multiply" or cn == "super()._construct_inv" or cn == "super()._construct_transpose":
             g = self.k.resolve_super(f.cls, cn.split(".")[1])
             if g is None:
@@ -441,6 +458,18 @@ class MatEval:
                 args[kw.arg] = self.ev(f, kw.value, env)
             return Val("obj", cls=target.name, args=args)
         raise AnalysisError(f"{f.qualname}: call outside the matrix grammar: {norm(e)[:60]}")
+
+    def _truth(self, f, e, env) -> bool:
+        if isinstance(e, ast.Constant):
+            return bool(e.value)
+        if isinstance(e, ast.UnaryOp) and isinstance(e.op, ast.Not):
+            return not self._truth(f, e.operand, env)
+        v = self.ev(f, e, env)
+        if v.kind == "bool" and isinstance(v.v, bool):
+            return v.v
+        if v.kind == "scalar" and v.v.is_const():
+            return v.v.const_value() != 0
+        raise AnalysisError(f"{f.qualname}: truth value of {norm(e)[:40]} unknown")
 
     def _pick(self, sub):
         """Choose the return consistent with the current assumptions."""
